@@ -145,10 +145,15 @@ impl BlobTree {
         std::fs::create_dir_all(&blobs_folder)?;
         fsync_directory(&blobs_folder)?;
 
-        let blob_file_id_to_continue_with = index
-            .current_version()
+        let version = index.current_version();
+
+        // NOTE: The fragmentation map may still know blob files that already left the value log
+        // (e.g. after their tables were dropped), so their IDs must not be handed out again,
+        // or the new blob file would inherit that fragmentation and could be dropped while still referenced
+        let blob_file_id_to_continue_with = version
             .blob_files
             .list_ids()
+            .chain(version.gc_stats().keys())
             .max()
             .map(|x| x + 1)
             .unwrap_or_default();
